@@ -300,6 +300,14 @@ func (w *cworld) render(it ReplyItem) string {
 		// a request from the peer that happens to carry the id of one of the
 		// client's own calls (a server numbers its callbacks 1, 2, 3 ... too)
 		return fmt.Sprintf(`{"jsonrpc":"2.0","id":%s,"method":"scall","params":{"n":%d}}`, id, it.N)
+	case "sameidreqscalar":
+		// the same, malformed in one of the ways a request can be: it is still a
+		// request, never an answer to the client's call
+		return fmt.Sprintf(`{"jsonrpc":"2.0","id":%s,"method":"scall","params":%d}`, id, it.N)
+	case "sameidreqnover":
+		return fmt.Sprintf(`{"id":%s,"method":"scall","params":{"n":%d}}`, id, it.N)
+	case "sameidreqextra":
+		return fmt.Sprintf(`{"jsonrpc":"2.0","id":%s,"method":"scall","params":{"n":%d},"bogus":true}`, id, it.N)
 	case "sameidnote":
 		return fmt.Sprintf(`{"jsonrpc":"2.0","id":%s,"method":"snote"}`, id)
 	}
